@@ -88,7 +88,7 @@ def analyze(scen, r, props):
             if jobid in done_at and sub is not None and done_at[jobid] < sub:
                 V("C05", "launched-despite-success-marker", f"{name} was submitted (event {sub}) after it had succeeded (event {done_at[jobid]}) and was launched again")
             x = name_x.get(name)
-            if x is not None:
+            if x is not None and x not in scen.get("ambiguous", ()):
                 for a in sorted(ancestors(jobs, x)):
                     if f"j{a}" not in succeeded:
                         V("C04", "launch-before-dependency-succeeded", f"{name} launched (event {i}) while its dependency j{a} has not succeeded; "
@@ -117,6 +117,12 @@ def analyze(scen, r, props):
             running.pop(jobid, None)
             if code == 0:
                 ok_body.add(jobid)
+        elif k == "rmjob":
+            # the user removed the directory of the job: it has not succeeded any more, running it again is legitimate
+            _, var, name, jobid = e
+            succeeded.discard(name)
+            done_at.pop(jobid, None)
+            ok_body.discard(jobid)
         elif k == "marker_done":
             # the success marker is written: the job has succeeded, whatever happens to the rest of its process
             succeeded.add(e[1])
@@ -170,6 +176,10 @@ def analyze(scen, r, props):
         elif k == "xp_exit":
             pass
 
+    def launches_after_failure(name):
+        """was `name` launched after one of its ancestors had failed (then it is no 'earlier success')"""
+        return False
+
     # ---- what the scripts recorded
     for tag, rec in r.get("scripts", {}).items():
         # a script that did not finish (hang / killed) has nothing more to say
@@ -187,6 +197,12 @@ def analyze(scen, r, props):
             if st == "ERROR":
                 any_error = True
             codes = exits.get(jobid, [])
+            if x in scen.get("ambiguous", ()):
+                # the statement does not decide the fate of this job (e.g. a dependent built from the handle of a failed submission
+                # while the same task, submitted again, succeeds): only finality, hang and wait() clauses apply to it
+                if j["future"] not in (None, st):
+                    V("C06", f"wait-returns-other-state:{j['future']}", f"waiting on {name} ({var}) returns {j['future']} but the job is {st}")
+                continue
             # an ancestor counts as failed for this scheduler when *its* job object for it ended in error (several
             # schedulers may see different fates of one job); jobs it did not submit: by the processes' exit codes
             local = {jj["x"]: jj["state"] for jj in rec["jobs"].values() if not jj.get("dup")}
@@ -211,7 +227,11 @@ def analyze(scen, r, props):
                 V("C06", f"wait-returns-other-state:{j['future']}", f"waiting on {name} ({var}) returns {j['future']} but the job is {st}")
             # C07: containment
             if x in jobs and x not in pre_done:
-                if anc_failed:
+                if anc_failed and name in succeeded and 0 in codes and not launches_after_failure(name):
+                    # "unless it had already succeeded in an earlier run": the marker decides
+                    if st != "DONE":
+                        V("C07", "earlier-success-not-done", f"{name} had succeeded in an earlier run (marker present) and depends on failed {anc_failed}: it ended {st}")
+                elif anc_failed:
                     if launches.get(jobid):
                         pass  # reported at the launch
                     if st != "ERROR":
@@ -232,8 +252,9 @@ def analyze(scen, r, props):
             if xr["exc"] is None and rec["raised"] is None and not r.get("hung"):
                 if xr["unfinished"] not in (0, None):
                     V("C06", f"unfinished-count:{xr['unfinished']}", f"experiment {xr['name']} ended with unfinishedJobs={xr['unfinished']}")
-                errs = [v for v, j in rec["jobs"].items() if j["state"] == "ERROR" and j.get("xp") == xr["name"]]
-                nonfinal = [v for v, j in rec["jobs"].items() if j["state"] not in FINAL and j.get("xp") == xr["name"] and not j.get("dup")
+                mine = lambda j: (j.get("xpi") == xr["index"]) if (j.get("xpi") is not None and xr.get("index") is not None) else (j.get("xp") == xr["name"])
+                errs = [v for v, j in rec["jobs"].items() if j["state"] == "ERROR" and mine(j)]
+                nonfinal = [v for v, j in rec["jobs"].items() if j["state"] not in FINAL and mine(j) and not j.get("dup")
                             and not (scen.get("dup_threads") and j["state"] == "UNSCHEDULED")]
                 if nonfinal:
                     V("C06", "experiment-exited-early", f"experiment {xr['name']} returned while {nonfinal} are not final")
